@@ -712,6 +712,36 @@ func runR82(c *Ctx) {
 				for _, e := range phi.Edges {
 					walk(e, 0)
 				}
+				// the accumulator and the blob start in step: initial offset = initial blob length
+				if okOff {
+					offInit, okO := int64(0), false
+					for i, e := range phi.Edges {
+						if !inLoop(*li, phi.Block().Preds[i]) {
+							offInit, okO = constInt(e)
+						}
+					}
+					blobInit, okB := int64(0), false
+					if bphi, ok := matched.Call.Args[0].(*ssa.Phi); ok {
+						for i, e := range bphi.Edges {
+							if !inLoop(*li, bphi.Block().Preds[i]) {
+								if mk, ok := e.(*ssa.MakeSlice); ok {
+									blobInit, okB = constInt(mk.Len)
+								}
+								if cst, ok := e.(*ssa.Const); ok && cst.IsNil() {
+									blobInit, okB = 0, true
+								}
+							}
+						}
+					}
+					if okO && okB && offInit != blobInit {
+						c.bad(key, pos, fmt.Sprintf("the offset accumulator starts at %d but the blob starts with %d byte(s): every cell addresses bytes shifted by the difference", offInit, blobInit))
+						return
+					}
+					if !okO || !okB {
+						c.undecided(key, pos, "cannot relate the initial offset to the initial length of the blob")
+						return
+					}
+				}
 			}
 			if okOff {
 				c.ok(key, pos, "length = bytes appended for the cell; offset = blob length before the append")
